@@ -251,8 +251,10 @@ def mk_ep(name, version):
     return epn, EntryPoint(epn, f"{SYNTH_MOD}:{attr}", "metador_vtgroup"), attr
 
 
-def build_group(path, regs):
-    """regs: list of (name, version) in registration order. Returns (group, attrs to clean up)."""
+def build_group(path, regs, touch=False):
+    """regs: list of (name, version) in registration order. Returns (group, attrs to clean up).
+    touch: issue version-less requests (get / []) for the names registered so far after every registration step,
+    so that requests and registrations are interleaved (any history, not only register-all-then-ask)."""
     attrs = []
     if path == "ctor":
         eps = {}
@@ -272,6 +274,13 @@ def build_group(path, regs):
             epn, ep, attr = mk_ep(n, v)
             attrs.append(attr)
             g._add_ep(epn, ep)
+        if touch:
+            for nn in {x for x, _ in regs[: idx + 1]}:
+                try:
+                    g.get(nn)
+                    g[nn]
+                except Exception:  # noqa  (judged by the final checks)
+                    pass
     return g, attrs
 
 
@@ -304,7 +313,7 @@ def check_group(rec, path, regs, with_get=False, reqs=REQS):
     attrs = []
     try:
         with watchdog(10):
-            g, attrs = build_group(path, regs)
+            g, attrs = build_group(path, regs, touch=with_get and path != "ctor")
     except Exception as e:  # noqa
         rec.violated(f"c16:group:{sp}:registration-raises:{type(e).__name__}", f"registering {regs} raised {type(e).__name__}: {e}", case, fns)
         cleanup(attrs)
